@@ -26,7 +26,7 @@ def _t(level, technique, ref="DESIGN.md section 4", note=_NOTE):
 TEXT = {
     "C01": _t("Seeded exploration: thousands of generated clusters/workloads are executed end-to-end by the "
               "unmodified Simulator (EDF/FIFO/LSF and the contract-abiding ChaosPolicy); at every event boundary "
-              "an integer shadow ledger driven by the observed Worker.place_task/remove_task/load/evict calls is "
+              "an integer shadow ledger driven by the observed Worker.place_task/remove_task/load/evict calls (capacities taken from the world spec) is "
               "compared with each worker's capacity and with the worker's own getters. Right level because "
               "oversubscription only shows at particular instants of particular runs. ChaosPolicy also issues batched "
               "placements (BatchStrategy objects joined late and re-used after the batch drained).",
@@ -64,7 +64,7 @@ TEXT = {
     "C04": _t("Seeded operation histories (allocate / allocate_multiple / deallocate / place / place-in-batch / "
               "remove / load / evict / copy / deepcopy, with refused requests injected at arbitrary points) on "
               "Resources, Worker and WorkerPool checked operation by operation against an integer reference ledger, "
-              "plus the in-run clauses (allocated == demand of residents; idle => full capacity) at every event "
+              "plus the pool's own ledger == sum of its workers' ledgers, and the in-run clauses (allocated == demand of residents; idle => full capacity) at every event "
               "boundary of simulated runs.",
               "deterministic simulation: reference-model check after every operation of a seeded history with injected refusals; in-run ledger invariant"),
     "C10": _t("Seeded exploration of runs driven by EDF/FIFO/LSF/ILP/TetriSched-Gurobi/TetriSched-CPLEX; every real "
@@ -99,7 +99,7 @@ TEXT = {
     "C15": _t("Seeded exploration of Clockwork runs (1-3 models with several batch-size strategies, pre-loaded or "
               "loaded by the policy, fixed/poisson/gamma/closed-loop request arrival, SLOs around the boundary, both "
               "goals); every schedule() return is grouped by BatchStrategy and checked (one model, size == batch size, "
-              "model loaded on the live worker, worker can hold it, now + runtime <= earliest deadline), each request "
+              "model loaded on the live worker -- also by an independent ledger of observed loads plus the declared loading time, and not evicted by the same answer --, worker can hold it, now + runtime <= earliest deadline), each request "
               "placed at most once over the run, hopeless requests cancelled not placed.",
               "deterministic simulation: per-invocation batch oracle + whole-run at-most-once over stateful request queues"),
     "C16": _t("Seeded operation histories on EventQueue (add / next / remove / in-place re-timing + reheapify / peek / "
@@ -116,7 +116,7 @@ TEXT = {
               "field by field with the spec; release times per policy, fresh isomorphic copies per invocation and "
               "deadline = release + critical-path/SLO base stretched within variance and bounds (base recomputed by "
               "path enumeration). Only the closed-loop clause depends on the run and is checked at every event "
-              "boundary of simulated runs under completing and cancelling policies.",
+              "boundary of simulated runs under completing and cancelling policies, together with 'all N invocations released' for runs that reach their natural end.",
               "deterministic simulation for the closed-loop clause (in-flight bound at every event boundary under cancelling policies); spec-vs-loaded-object comparison at world construction for the rest"),
     "C09": _t("Seeded generation of workloads using randomness; the untouched `python main.py --random_seed=N` is "
               "run in three fresh interpreters (baseline / other PYTHONHASHSEED / other PYTHONHASHSEED + skewed wall "
